@@ -40,6 +40,8 @@ func c18ElemPool() []*model.Elem {
 		mv("", "P", nil), mv("v4", "", nil), mv("v5", "P", M{"_gid": 1.0}), mv("v6", "P", M{"bad key": 1.0}),
 		me("e1", "r", "v1", "v2", M{"w": 1.0}), me("e2", "s", "v2", "v3", nil), me("e1", "r", "v1", "v2", M{"w": 2.0}), me("e3", "r", "v1", "zz", nil), me("e2", "r", "v3", "v2", nil),
 		me("e4", "", "v1", "v2", nil), me("e5", "r", "", "v2", nil), me("e6", "r", "v1", "", nil), me("e7", "r", "v1", "v1", M{"_label": 1.0}),
+		// a vertex and an edge may carry the same gid: they are different elements
+		me("v2", "s", "v1", "v3", M{"w": 9.0}), mv("e2", "Q", M{"x": 9.0}),
 	}
 }
 
